@@ -194,3 +194,123 @@ PROPS["C01"] = dict(
         "reference index tables are regenerated from /repo/tests/test_data/*_in_ref.txt (upstream-generated from indexes.json)",
         "an error's span is defined as the bytes the erroring step consumed, did not restore and did not use (e.g. an ESC that starts an escape is used)"],
 )
+
+
+# ----------------------------------------------------------------------------------------------- C02
+UTF8_RANGES = [(0, 0x7F), (0x80, 0xC1), (0xC2, 0xDF), (0xE0, 0xE7), (0xE8, 0xEF), (0xF0, 0xFF)]
+Q_RANGES = [(0, 0x3F), (0x40, 0x7F), (0x80, 0xBF), (0xC0, 0xFF)]
+
+
+def c02_jobs(tier, seed):
+    jl = []
+    q = tier == "quick"
+    rnd = random.Random(seed)
+    SINKS = ("utf16", "utf8", "str", "String")
+
+    def add(enc, n0, n1, sink, repl, lo, hi, pre, regime, bom=0, weight=10, need=()):
+        mn = 2 if sink == 0 else 4
+        # regimes: A = 2 cuts + optional empty final call, large sink; B = 1 cut, 3 symbolic per-call capacities
+        # min..min+2; C = 2 cuts + empty final call at the fixed documented minimum; D = 2 cuts, capacities min..min+1
+        cmin, cmax, ncuts, el = {"A": (24, 24, 2, 1), "B": (mn, mn + (1 if q else 2), 1, 0), "C": (mn, mn, 2, 1), "D": (mn, mn + 1, 2, 0)}[regime]
+        nd = [9999] + list(need)
+        jl.append(J("se_h_c02_chunk", {0: E[enc], 1: n0, 2: n1, 3: sink, 4: repl, 5: lo, 6: hi, 7: pre, 8: bom, 9: cmin, 10: cmax, 11: ncuts, 12: el,
+                                       13: 2 if q else 3},
+                    label="%s n=%d..%d sink=%s repl=%d first=%02X..%02X prefix=%d regime=%s" % (enc, n0, n1, SINKS[sink], repl, lo, hi, pre, regime),
+                    need=nd, weight=weight, time_budget=900 if q else 3000))
+
+    third = rnd.choice([(2, 0), (3, 1)])
+
+    def configs(cheap=False):
+        """(sink, repl) pairs: every sink kind and both replacement modes appear; quick trims the product for the
+        expensive encodings to UTF-16/no replacement, UTF-8/replacement and a seed-chosen one of &mut str / String"""
+        if q:
+            return [(0, 0), (1, 1), (2, 0), (3, 1)] if cheap else [(0, 0), (1, 1), third]
+        return [(s, r) for s in range(4) for r in (0, 1)]
+    regimes = ("A", "B", "C") if q else ("A", "B", "C", "D")
+    # single-byte family shares one code path: all 28 in regime C/UTF-16, three representatives in everything
+    reps = ["windows-1252", "windows-874", "ISO-8859-8"] + ([ENC_NAMES[rnd.choice(SINGLE)]] if q else [])
+    for i in SINGLE:
+        enc = ENC_NAMES[i]
+        if enc in reps or not q:
+            for (s, r) in configs(True):
+                for g in regimes:
+                    add(enc, 0, 3, s, r, 0, 255, 0, g, weight=8)
+        else:
+            add(enc, 0, 3, 0, 0, 0, 255, 0, "C", weight=4)
+    for enc in ("x-user-defined", "replacement"):
+        for (s, r) in configs(True):
+            for g in regimes:
+                add(enc, 0, 3, s, r, 0, 255, 0, g, weight=4)
+    for enc in ("UTF-8", "UTF-16BE", "UTF-16LE"):
+        n1 = 3 if enc == "UTF-8" else 4
+        if not q:
+            n1 += 1
+        for (s, r) in configs():
+            for g in regimes:
+                for k, (lo, hi) in enumerate(UTF8_RANGES if enc == "UTF-8" else Q_RANGES):
+                    add(enc, 0 if k == 0 else 1, n1, s, r, lo, hi, 0, g, weight=30)
+    for enc in ("Big5", "EUC-KR", "Shift_JIS", "EUC-JP", "GBK", "gb18030"):
+        shards = lead_shards(enc, 16)
+        if q:
+            # quick: the non-lead shard, the last (past-the-leads) shard and two seed-chosen lead shards
+            mid = shards[1:-1] if shards[-1][1] == 0xFF and shards[-1][0] > shards[1][0] else shards[1:]
+            pick = [shards[0], shards[-1]] + rnd.sample(mid, 2)
+        else:
+            pick = shards
+        n1 = 3
+        for (s, r) in configs():
+            for g in regimes:
+                for (lo, hi) in pick:
+                    add(enc, 0 if lo == 0 else 1, n1 if not (enc in ("GBK", "gb18030") and not q and s == 0 and r == 0) else 4,
+                        s, r, lo, hi, 0, g, weight=40)
+    # ISO-2022-JP: fully symbolic + escape prefixes
+    for (s, r) in configs():
+        for g in regimes:
+            for (lo, hi) in [(0, 0x1A), (0x1B, 0x1B), (0x1C, 0x7F), (0x80, 0xFF)]:
+                add("ISO-2022-JP", 0 if lo == 0 else 1, 3, s, r, lo, hi, 0, g, weight=40)
+            for pre in ((4, 5, 8, 13) if q else range(1, 15)):
+                add("ISO-2022-JP", 0, 2 if q else 3, s, r, 0, 255, pre, g, weight=40)
+    # UTF-8 vs UTF-16 output forms denote the same scalars
+    for i in range(40):
+        enc = ENC_NAMES[i]
+        if i in SINGLE and q and enc not in reps:
+            continue
+        if enc in ("Big5", "EUC-KR", "Shift_JIS", "EUC-JP", "GBK", "gb18030"):
+            shards = lead_shards(enc, 16)
+            pick = ([shards[0]] + rnd.sample(shards[1:-1], 3)) if q else shards
+        elif enc == "UTF-8":
+            pick = UTF8_RANGES
+        else:
+            pick = [(0, 255)]
+        for repl in (0, 1):
+            for (lo, hi) in pick:
+                jl.append(J("se_h_c02_forms", {0: i, 1: 0 if lo == 0 else 1, 2: 3, 4: repl, 5: lo, 6: hi, 7: 0},
+                            label="%s forms repl=%d first=%02X..%02X" % (enc, repl, lo, hi), need=[9999], weight=15,
+                            time_budget=900 if q else 3000))
+    return jl
+
+
+PROPS["C02"] = dict(
+    cfgs=["verif_c02"], level="model_checking", jobs=c02_jobs,
+    # vacuity guard over the whole run: OutputFull while chunked, stream cut twice, empty middle buffer, empty final
+    # call carrying `last`, streams with and without errors
+    need_global=[30, 31, 32, 33, 20, 21],
+    explanation=("The real Decoder is run twice on the same stream of N fully symbolic bytes: once in a single call sequence with a worst-case-sized "
+                 "sink, once cut into up to three input buffers (symbolic cut points, empty buffers allowed, optionally an empty final call carrying "
+                 "`last`) with symbolic per-call output capacities at and just above the documented minimum, re-pushing unconsumed input as documented. "
+                 "Concatenated text, had_errors, the decoder's encoding() and absolute malformed-sequence spans are asserted equal; a second harness "
+                 "asserts that the UTF-8 and UTF-16 forms denote the same scalars. Only real code on both sides (no reference model), so the claim does "
+                 "not depend on any trusted index data. z3 decides every branch and assertion per path."),
+    bounds=lambda tier: ("streams of N symbolic bytes (single-byte, x-user-defined, replacement N<=3; UTF-8 N<=%d; UTF-16LE/BE N<=%d; CJK two-byte N<=3%s; ISO-2022-JP N<=3 "
+                         "plus %s concrete escape prefixes); sinks UTF-16 slice, UTF-8 slice, &mut str, String; with/without replacement (%s); three call-history "
+                         "regimes whose costs add: A = two symbolic cuts + optional empty final call, large sink; B = one symbolic cut, symbolic per-call "
+                         "capacities (quick: two calls, min..min+1; thorough: three calls, min..min+2); C = two symbolic cuts + empty final call at the fixed documented minimum (4 bytes / 2 units)%s. "
+                         "%s" % ((3, 4, "", "4", "quick: sink/mode pairs (utf16,no), (utf8,yes) and a seed-chosen one of (str,no)/(String,yes); all four for the cheap encodings", "",
+                                  "Quick: CJK encodings on the non-lead shard, the past-the-leads shard and two seed-chosen 8-lead shards; 24 of the 28 single-byte encodings only in regime C/UTF-16 (shared code path).")
+                                 if tier == "quick" else
+                                 (4, 5, ", gb18030/GBK N<=4 for the UTF-16 sink without replacement", "14", "all 8 sink/mode pairs",
+                                  "; D = two cuts with capacities min..min+1", "All lead shards, all encodings in every regime."))),
+    outside=["streams longer than N bytes", "more than two cuts", "BOM modes other than 'without BOM handling' (C10)",
+             "capacities more than 2 above the minimum combined with two cuts"],
+    assumptions=ENGINE_ASSUMPTIONS + ["the single-call run of the same real decoder is the yardstick (its conformance is C01)"],
+)
